@@ -49,6 +49,9 @@ def main():
         except Exception:  # noqa: BLE001
             pass
     meta.setdefault("checks", {})
+    notes = os.path.join(sd, "notes.md")
+    if "needs_to_manifest" not in meta and os.path.exists(notes):
+        meta["needs_to_manifest"] = " ".join(open(notes).read().split())[:900]
     try:
         sh(f"rsync -a --exclude .git --exclude docs --exclude '*.egg-info' /repo/ {scratch}/")
         r = sh(f"cd {scratch} && patch -p1 -s < {sd}/patch.diff")
@@ -66,8 +69,8 @@ def main():
             meta["suite"] = dict(summary=line, passed=int(m_p.group(1)) if m_p else 0, failed=int(m_f.group(1)) if m_f else 0)
             meta["suite"]["ok"] = meta["suite"]["passed"] == 132 and meta["suite"]["failed"] == 10
         if os.path.exists(os.path.join(sd, "demo.py")) and not (a.skip_suite and "demo_with_change_rc" in meta):
-            r1 = sh(f"cd /tmp && PYTHONPATH={scratch} /venv/bin/python {sd}/demo.py")
-            r0 = sh(f"cd /tmp && PYTHONPATH=/repo /venv/bin/python {sd}/demo.py")
+            r1 = sh(f"cd /tmp && IOOS_QC_REPO={scratch} PYTHONPATH={scratch} /venv/bin/python {sd}/demo.py")
+            r0 = sh(f"cd /tmp && IOOS_QC_REPO=/repo PYTHONPATH=/repo /venv/bin/python {sd}/demo.py")
             meta["demo_with_change_rc"] = r1.returncode
             meta["demo_without_change_rc"] = r0.returncode
             meta["demo_ok"] = r1.returncode != 0 and r0.returncode == 0
